@@ -23,7 +23,7 @@ Local Open Scope list_scope.
 (* ------------------------------------------------------------------ *)
 
 (* a query run standalone on document [d]: no CTE is registered, none is in progress *)
-Definition plain (d : row) : qctx := {| c_data := d; c_ctes := []; c_busy := [] |}.
+Definition plain (d : row) : qctx := {| c_data := d; c_ctes := []; c_busy := []; c_up := [] |}.
 
 (* the document with [v] supplied as plain input under key [c] (an existing key is overwritten) *)
 Definition bind_doc (d : row) (c : string) (v : value) : row := obj_set c v d.
@@ -122,9 +122,96 @@ Definition mem_str (k : string) (l : list string) : bool := existsb (String.eqb 
 Fixpoint nodup_str (l : list string) : bool :=
   match l with [] => true | k :: r => negb (mem_str k r) && nodup_str r end.
 
+(* ---- what a row-scoped subquery can reach behind `<-` ----
+
+   A subquery's data is the scope copy of the current row; its `<-` key is the enclosing query's
+   data map, which still holds that query's CTE thunks.  So `FROM `<-`.c` inside a subquery reads
+   the CTE c of the enclosing query, `<-`.`<-`.c the one two queries up, and so on.
+
+   [ups_avoid names p]: the steps of [p] up to and including the first one that is not `<-` are not
+   in [names] — read in the data maps of the enclosing queries, [p] cannot stop at a thunk named in
+   [names] (the test does not count the `<-` steps: it is the same at every nesting depth). *)
+Fixpoint ups_avoid (names : list string) (p : list string) : bool :=
+  match p with
+  | [] => true
+  | k :: r => negb (existsb (String.eqb k) names) && (if String.eqb k "<-" then ups_avoid names r else true)
+  end.
+
+(* a table path: constrained only when it navigates back *)
+Definition path_hides (names : list string) (p : list string) : bool :=
+  match p with
+  | k :: r => if String.eqb k "<-" then ups_avoid names r else true
+  | [] => true
+  end.
+
+Section Hides.
+  Variable Q : Type.
+  Variable deep : Q -> bool.            (* nested statements: CTE bodies, derived tables, subqueries *)
+  Variable names : list string.
+
+  Fixpoint expr_hides (e : expr Q) : bool :=
+    match e with
+    | ECol _ | ENum _ | EStr _ | EBool _ | ENull | EAgg _ _ => true
+    | EAnd a b | EOr a b | ECmp _ a b | ELike _ a b | EBin _ a b => expr_hides a && expr_hides b
+    | ENot a | EIs _ a | EUn _ a => expr_hides a
+    | EIn _ a items =>
+        expr_hides a &&
+        (fix go (l : list (expr Q)) : bool :=
+           match l with [] => true | x :: r => expr_hides x && go r end) items
+    | EInSub _ a q => expr_hides a && deep q
+    | EBetween _ a lo hi => expr_hides a && expr_hides lo && expr_hides hi
+    | ECase whens els =>
+        (fix go (ws : list (expr Q * expr Q)) : bool :=
+           match ws with [] => true | (c, v) :: r => expr_hides c && expr_hides v && go r end) whens
+        && match els with None => true | Some x => expr_hides x end
+    | ESub q => deep q
+    | EExists q => deep q
+    | ECall _ _ args =>
+        (fix go (l : list (expr Q)) : bool :=
+           match l with [] => true | x :: r => expr_hides x && go r end) args
+    end.
+
+  Definition opt_hides (o : option (expr Q)) : bool :=
+    match o with Some e => expr_hides e | None => true end.
+  Definition item_hides (it : sel_item Q) : bool :=
+    match it with IStar => true | IExpr e _ => expr_hides e end.
+
+  (* the ON expression of a join is evaluated without subqueries: unconstrained *)
+  Fixpoint from_hides (f : from_clause Q) : bool :=
+    match f with
+    | FDual => true
+    | FTable p _ => path_hides names p
+    | FTableFn _ p _ => path_hides names p
+    | FDerived q _ => deep q
+    | FJoin _ _ l r _ => from_hides l && from_hides r
+    end.
+
+  (* WHERE, HAVING and the select list *)
+  Definition pipeline_hides (s : select Q) : bool :=
+    opt_hides (s_where s) && opt_hides (s_having s) && forallb item_hides (s_items s).
+
+  Definition select_hides (s : select Q) : bool :=
+    (fix go (l : list (string * Q)) : bool :=
+       match l with [] => true | (_, b) :: r => deep b && go r end) (s_with s)
+    && from_hides (s_from s) && pipeline_hides s.
+End Hides.
+Arguments expr_hides {Q}. Arguments opt_hides {Q}. Arguments item_hides {Q}. Arguments from_hides {Q}.
+Arguments pipeline_hides {Q}. Arguments select_hides {Q}.
+
+(* a statement nested (at any depth) inside a row-scoped subquery of the query that registered the
+   CTEs [names]: none of its table paths reaches one of them through `<-` *)
+Fixpoint hides (names : list string) (q : stmt) {struct q} : bool :=
+  match q with
+  | SSelect s => select_hides (hides names) names s
+  | SUnion _ l r _ _ => hides names l && hides names r
+  end.
+
 (* an inner statement that cannot see the CTEs named [names]: SELECTs without their own WITH (and
    UNIONs of such) whose tables (joins included) do not start with one of the names and are not
-   derived tables.  Subqueries inside expressions are unrestricted: they never see CTEs. *)
+   derived tables, and whose row-scoped subqueries (WHERE, HAVING, select list; at any depth) do not
+   reach one of the names through `<-`.
+   (The last clause is new: before the thunks of the enclosing query became visible behind `<-`,
+   subqueries never saw CTEs and were unrestricted.) *)
 Fixpoint from_avoids (names : list string) (f : from_clause stmt) : bool :=
   match f with
   | FDual | FTableFn _ _ _ => true
@@ -136,7 +223,11 @@ Fixpoint from_avoids (names : list string) (f : from_clause stmt) : bool :=
 
 Fixpoint avoids (names : list string) (q : stmt) : bool :=
   match q with
-  | SSelect s => match s_with s with [] => from_avoids names (s_from s) | _ => false end
+  | SSelect s =>
+      match s_with s with
+      | [] => from_avoids names (s_from s) && pipeline_hides (hides names) s
+      | _ => false
+      end
   | SUnion _ l r _ _ => avoids names l && avoids names r
   end.
 
